@@ -287,6 +287,30 @@ def channels(check, prog):
     check.require(ok, 'S2-select-scatterer', 'select_scatterer_by_illumination',
                   'dict values by key, labelled arrays by .sel(illumination=label), '
                   'plain values unchanged, stored under the same parameter name', loc)
+    if ok:
+        # one channel of a labelled array of numbers is a number, as it is when
+        # the values come in a dictionary: the theories (and the default-theory
+        # table) tell a uniform sphere from a layered one with np.isscalar, which
+        # a 0-d array fails
+        sels = [x for x in subterms(val) if x[0] == 'attr' and x[2] in ('values', 'data')
+                and x[1][0] == 'call' and x[1][1] == ('attr', pv, 'sel')]
+        scal = [x for x in subterms(val) for S in sels if
+                (x[0] == 'call' and x[1] in (('attr', S, 'item'), ('attr', S, 'tolist')))
+                or (x[0] == 'call' and x[1] in ('float', 'complex', 'numpy.asscalar')
+                    and x[2] == (S,))
+                or (x[0] == 'idx' and x[1] == S and x[2] == ('tuple', ()))]
+        scal += [x for x in subterms(val) if x[0] == 'call' and isinstance(x[1], tuple)
+                 and x[1][0] == 'attr' and x[1][2] == 'item' and
+                 x[1][1][0] == 'call' and x[1][1][1] == ('attr', pv, 'sel')]
+        check.require(bool(scal), 'S2-select-scalar',
+                      'select_scatterer_by_illumination labelled array',
+                      'a single selected number is handed on as a scalar', loc,
+                      fail_detail='the selection %s is stored as it is: for an index '
+                      'given per channel as a labelled array it is a 0-d array, which '
+                      'np.isscalar rejects -- Multisphere (and the default theory of a '
+                      'sphere collection) take the sphere for a layered one and raise '
+                      'TheoryNotCompatibleError, while the same values in a dictionary '
+                      'work' % (show(sels[0])[:80] if sels else '?'))
     v = res.ret
     ok = v[0] == 'call' and v[1] == ('attr', sym('scatterer'), 'from_parameters')
     check.require(ok, 'S2-select-scatterer', 'select_scatterer_by_illumination return',
